@@ -754,6 +754,8 @@ func (w *walker) stmt(s ast.Stmt, rest []ast.Stmt) (nodes []Node, stop bool) {
 				lp.Bound = nil
 				lp.Cond = v.Cond
 			}
+		} else if cd := countDown(v); cd != nil {
+			lp.Bound = cd // for n := <count>; n > 0; n-- runs <count> times
 		} else if lx := listIteration(v); lx != nil {
 			lp.Range = lx // for e := X.Front(); e != nil; e = e.Next(): X.Len() iterations
 		} else if call, ok := v.Cond.(*ast.CallExpr); ok {
@@ -1519,4 +1521,40 @@ func (x *Extractor) Dump(ns []Node, indent string) string {
 		}
 	}
 	return sb.String()
+}
+
+// countDown: `for n := E; n > 0; n--` (also n != 0, 0 < n, n -= 1) runs E times; returns the counter
+// identifier (its initial value is what the init statement bound it to).
+func countDown(f *ast.ForStmt) ast.Expr {
+	init, ok := f.Init.(*ast.AssignStmt)
+	if !ok || len(init.Lhs) != 1 || len(init.Rhs) != 1 {
+		return nil
+	}
+	id, ok := init.Lhs[0].(*ast.Ident)
+	if !ok {
+		return nil
+	}
+	be, ok := ast.Unparen(f.Cond).(*ast.BinaryExpr)
+	if !ok {
+		return nil
+	}
+	isID := func(e ast.Expr) bool { x, ok := ast.Unparen(e).(*ast.Ident); return ok && x.Name == id.Name }
+	isZero := func(e ast.Expr) bool { b, ok := ast.Unparen(e).(*ast.BasicLit); return ok && b.Value == "0" }
+	condOK := ((be.Op == token.GTR || be.Op == token.NEQ) && isID(be.X) && isZero(be.Y)) || (be.Op == token.LSS && isZero(be.X) && isID(be.Y))
+	if !condOK {
+		return nil
+	}
+	switch p := f.Post.(type) {
+	case *ast.IncDecStmt:
+		if p.Tok == token.DEC && isID(p.X) {
+			return id
+		}
+	case *ast.AssignStmt:
+		if p.Tok == token.SUB_ASSIGN && len(p.Lhs) == 1 && len(p.Rhs) == 1 && isID(p.Lhs[0]) {
+			if b, ok := ast.Unparen(p.Rhs[0]).(*ast.BasicLit); ok && b.Value == "1" {
+				return id
+			}
+		}
+	}
+	return nil
 }
